@@ -12,6 +12,8 @@ Steps (JSON lists):
             ["rne"]                              remove_normal_edges(I, "standard_order")
             ["nn", k]                            find_nearest_neighbors(I, list(get_rc(I).nodes()), k)      (k None: default n_knn)
             ["sub", ids]                         extract_subgraph(I, ids)
+            ["rck", k]                           get_rc(extract_k(I, k)): the centre of a context (theorem C02_rc_of_context: = the centre)
+            ["kk", k2, k]                        extract_k(extract_k(I, k2), k): a context of a context (theorem C02_ctx_of_ctx: = extract_k(I, k) for 1 <= k <= k2)
             ["list2", k, n]                      paralle_context_extraction([{"its": I}] * n, "its", "ctx", 1, 0, k)   (all positional)
             k = None in "k" / "ctx" / "nn": the argument is omitted (defaults n_knn = 0, 0, 1)
   edits of the ITS in place
@@ -28,7 +30,7 @@ import copy
 from . import c01_enc as E
 from . import c02_enc as X
 
-QUERIES = ("rc", "rcx", "k", "hk", "ctx", "ctx2", "list", "list2", "uneq", "rne", "nn", "sub")
+QUERIES = ("rc", "rcx", "k", "hk", "ctx", "ctx2", "list", "list2", "uneq", "rne", "nn", "sub", "rck", "kk")
 
 
 def is_query(step):
@@ -149,6 +151,15 @@ def run_query(I, st, keyobjs=None):
     if op == "k":
         r = RadiusExpand.extract_k(I) if st[1] is None else RadiusExpand.extract_k(I, st[1])
         return [r], X.obs_ctx(r)
+    if op == "kk":
+        r = RadiusExpand.extract_k(RadiusExpand.extract_k(I, st[1]), st[2])
+        return [r], X.obs_ctx(r)
+    if op == "rck":
+        r = get_rc(RadiusExpand.extract_k(I, st[1]))
+        r0 = r.copy()
+        for _, _, d in r0.edges(data=True):        # the model term extracts from the ITS value WITHOUT is_mtg attributes (the its type has none)
+            d["is_mtg"] = False
+        return [r], X.obs_xits(r0)
     if op == "sub":
         r = RadiusExpand.extract_subgraph(I, list(st[1]))
         return [r], X.obs_ctx(r)
@@ -292,6 +303,10 @@ def coq_history(case):
         elif op in ("list", "list2"):
             terms.append("tlist (fun p : its * its => tctx (snd p)) (context_list %s (%d))"
                          % ("[" + "; ".join([E.coq_its(strip_mtg(g))] * st[2]) + "]", st[1]))
+        elif op == "kk":
+            terms.append("tctx (extract_k_z (extract_k_z %s (%d)) (%d))" % (E.coq_its(strip_mtg(g)), st[1], st[2]))
+        elif op == "rck":
+            terms.append("txits (get_rc_x K_default false false (emb (extract_k_z %s (%d))))" % (E.coq_its(strip_mtg(g)), st[1]))
         elif op == "sub":
             terms.append("tctx (extract_subgraph %s [%s])" % (E.coq_its(strip_mtg(g)), "; ".join("%d%%N" % x for x in st[1])))
         elif op == "uneq":
@@ -350,7 +365,7 @@ def q_default(rng, allow_minus1=False, g=None):
         ids = [n for n, _ in g["nodes"]]
         return ["sub", sorted(rng.sample(ids, rng.randint(0, len(ids))) + ([max(ids) + 50] if rng.random() < 0.3 else []))]
     if z < 0.2:
-        return rng.choice((["k", None], ["ctx", None], ["nn", None], ["list2", rng.choice((0, 1, 2)), 2]))
+        return rng.choice((["k", None], ["ctx", None], ["nn", None], ["list2", rng.choice((0, 1, 2)), 2], ["rck", rng.choice((1, 2, 3))], ["kk", rng.choice((2, 3)), rng.choice((1, 2))]))
     if z < 0.45:
         return [rng.choice(("k", "k", "hk", "ctx", "ctx2")), rng.choice((1, 1, 2, 2, 3, 0) + ((-1,) if allow_minus1 else ()))]
     if z < 0.6:
